@@ -1768,6 +1768,14 @@ def iter_next(eng, it):
     raise Unmodelled('iter_next kind ' + k)
 
 
+def _gset_has_cloned(it):
+    while type(it) is Iter and it.kind in ('gfilter', 'gcloned'):
+        if it.kind == 'gcloned':
+            return True
+        it = it.s[0]
+    return False
+
+
 def _gset_eval(eng, it):
     """Evaluate a gset/gfilter/gcloned pipeline into a plain gset (no forking on presence)."""
     if it.kind == 'gset':
@@ -1777,11 +1785,15 @@ def _gset_eval(eng, it):
     if it.kind == 'gfilter':
         inner = _gset_eval(eng, it.s[0])
         clo, ts = it.s[1], it.s[2]
+        # items of a set iterator are references (the predicate sees `&&T`); after `.copied()` / `.cloned()`
+        # they are values (the predicate sees `&T`)
+        by_value = _gset_has_cloned(it.s[0])
         out = []
         for (k, p) in inner.s[0]:
             if p is False:
                 continue
-            keep = eng.call_closure(clo, [Ref(Cell(Ref(Cell(k), (0,))), (0,))], ts)
+            arg = Ref(Cell(k), (0,)) if by_value else Ref(Cell(Ref(Cell(k), (0,))), (0,))
+            keep = eng.call_closure(clo, [arg], ts)
             out.append((k, bool_and(p, keep)))
         return Iter('gset', tuple(out), 0)
     raise Unmodelled('gset pipeline ' + it.kind)
